@@ -125,6 +125,8 @@ type c14Agent struct {
 	pickup *messagepickup.Service
 }
 
+func (a *c14Agent) cdid() string { return "did:conn:" + a.name }
+
 type c14World struct {
 	profile, mtp, kt string
 	legacy           bool
@@ -179,6 +181,10 @@ func (w *c14World) addAgent(name string, p *envParty, withMediator bool) *c14Age
 		w.keyNames[p.didKey] = name
 	}
 	w.docs[a.did] = doc
+	// the DID under which the agent is CONNECTED to a mediator is a pairwise one: not the DID its key ids live under
+	cd := *doc
+	cd.ID = a.cdid()
+	w.docs[a.cdid()] = &cd
 	w.agents[name] = a
 	w.order = append(w.order, name)
 	_ = withMediator
@@ -246,7 +252,7 @@ func (w *c14World) keylist(m *c14Agent, client *c14Agent, key, action string, se
 	err := m.med.VerifHandleKeylistUpdate(c14Msg(map[string]interface{}{
 		"@id": fmt.Sprintf("ku%d", seq), "@type": mediator.KeylistUpdateMsgType,
 		"updates": []map[string]string{{"recipient_key": key, "action": action}},
-	}), m.did, client.did)
+	}), m.did, client.cdid())
 	if err != nil {
 		return "err"
 	}
@@ -337,7 +343,7 @@ func (w *c14World) hop(m *c14Agent, data []byte, heldBefore map[string]int) (des
 			// held for pickup: find whose inbox grew
 			nx = "held:?"
 			for _, n := range w.order {
-				c := w.inboxCount(m, w.agents[n].did)
+				c := w.inboxCount(m, w.agents[n].cdid())
 				if c > heldBefore[m.name+"/"+n] {
 					nx = "held:" + n
 					held = n
@@ -372,7 +378,7 @@ func (w *c14World) heldSnapshot(meds []*c14Agent) map[string]int {
 	snap := map[string]int{}
 	for _, m := range meds {
 		for _, n := range w.order {
-			snap[m.name+"/"+n] = w.inboxCount(m, w.agents[n].did)
+			snap[m.name+"/"+n] = w.inboxCount(m, w.agents[n].cdid())
 		}
 	}
 	return snap
@@ -586,7 +592,7 @@ func c14Run(input string) string {
 			c := w.agents[f[1]]
 			M1.out.resp = nil
 			err := M1.pickup.VerifHandleBatchPickup(c14Msg(map[string]interface{}{"@id": fmt.Sprintf("bp%d", seq),
-				"@type": messagepickup.BatchPickupMsgType, "batch_size": 100}), M1.did, c.did)
+				"@type": messagepickup.BatchPickupMsgType, "batch_size": 100}), M1.did, c.cdid())
 			if err != nil || len(M1.out.resp) != 1 {
 				outs = append(outs, "err")
 				continue
